@@ -157,5 +157,10 @@ if os.path.exists(mp):
             else:
                 meta[k] = v
     meta["caught_by"] = [c for c, v in meta["checks"].items() if v["exit"] == 1]
+    ran = []
+    for line in old.get("ran", []) + meta["ran"]:
+        if line not in ran:
+            ran.append(line)
+    meta["ran"] = ran
 json.dump(meta, open(mp, "w"), indent=1)
 print(json.dumps({k: meta[k] for k in meta if k.startswith(("suite", "demo_f", "demo_p", "caught"))}))
